@@ -105,14 +105,10 @@ def kani(P, u, prop):
     u.kani_oracle.append("pub fn eq(x: &TI, y: &TI) -> bool {\n    match (x, y) {\n        %s\n        _ => false,\n    }\n}\n"
                          % "\n        ".join(arms))
     u.kani_harness.append("""
-#[kani::ensures(|r: &bool| *r == oracle::eq(a, b))]
-pub fn eq_c(a: &TI, b: &TI) -> bool { a == b }
-#[kani::ensures(|r: &bool| *r == !oracle::eq(a, b))]
-pub fn ne_c(a: &TI, b: &TI) -> bool { a != b }
-#[kani::proof_for_contract(eq_c)]
-pub fn eq_h() { let a = oracle::mk(&mut KaniSrc); let b = oracle::mk(&mut KaniSrc); eq_c(&a, &b); kani::cover!(true); }
-#[kani::proof_for_contract(ne_c)]
-pub fn ne_h() { let a = oracle::mk(&mut KaniSrc); let b = oracle::mk(&mut KaniSrc); ne_c(&a, &b); kani::cover!(true); }
+#[kani::proof]
+pub fn eq_h() { let a = oracle::mk(&mut KaniSrc); let b = oracle::mk(&mut KaniSrc); let r = a == b; assert!(r == oracle::eq(&a, &b), "contract: (a == b) == oracle::eq(a, b)"); kani::cover!(true); }
+#[kani::proof]
+pub fn ne_h() { let a = oracle::mk(&mut KaniSrc); let b = oracle::mk(&mut KaniSrc); let r = a != b; assert!(r == !oracle::eq(&a, &b), "contract: (a != b) == !oracle::eq(a, b)"); kani::cover!(true); }
 """)
     u.kani_obls["eq_h"] = ("%s/%s/PartialEq::eq/contract" % (prop, P.pid), "(a == b) == oracle::eq(a, b)")
     u.kani_obls["ne_h"] = ("%s/%s/PartialEq::ne/contract" % (prop, P.pid), "(a != b) == !oracle::eq(a, b)")
